@@ -46,6 +46,7 @@ class Group:
     solver: str = "sat"                   # sat | cadical | cvc5 | z3
     unwind: int = 12
     unwindset: List[str] = field(default_factory=list)
+    pre_unwind_partial: bool = False      # pre-unwinding WITHOUT unwinding assertions (paths beyond the bound are cut): bounded groups only
     pre_unwind: Dict[str, tuple] = field(default_factory=dict)  # fn -> ([textual loop indexes], k): unwound statically (with unwinding
                                           # assertions) by goto-instrument BEFORE contract instrumentation (loops nested in a contract loop)
     unwind_fn: Dict[str, int] = field(default_factory=dict)   # per-function loop bound; ids are read from the instrumented binary
@@ -268,7 +269,7 @@ def _run_group_once(g: Group, prop: str, keep_trace=True, sub="") -> Result:
                         raise Infra(f"pre-unwind: {fn} has only {len(lst)} loops (structural edit: proof needs maintenance)")
                     uws.append(f"{fn}.{lst[ix][1]}:{k}")
             u = os.path.join(wd, "u.gb")
-            rc, out, err, dt = run(["goto-instrument", "--unwindset", ",".join(uws), "--unwinding-assertions", cur, u], 300, cwd=wd,
+            rc, out, err, dt = run(["goto-instrument", "--unwindset", ",".join(uws)] + ([] if g.pre_unwind_partial else ["--unwinding-assertions"]) + [cur, u], 300, cwd=wd,
                                    log=os.path.join(wd, "preunwind.log"))
             if rc != 0:
                 raise Infra("pre-unwind failed: " + (err or out)[-2000:])
